@@ -3,7 +3,7 @@
 // name; the bodies below are the NATIVE semantics used when a solver model is
 // replayed as an ordinary Go test: values come from the JSON file named by
 // $VERIF_CEX (map name -> integer).
-package scanner
+package jerr
 
 import (
 	"encoding/json"
